@@ -132,3 +132,104 @@ theorem mem_filterMask {β : Type} (l : List β) (m : List Bool) (x : β) (h : x
   (filterMask_sublist l m).subset h
 
 end Biom.C05
+
+namespace Biom.C05
+
+/-! ### sums -/
+
+theorem foldl_add_start (l : List Rat) (a : Rat) : l.foldl (· + ·) a = a + l.foldl (· + ·) 0 := by
+  induction l generalizing a with
+  | nil => simp [Rat.add_zero]
+  | cons x xs ih =>
+    simp only [List.foldl_cons]
+    rw [ih (a + x), ih (0 + x), Rat.zero_add, Rat.add_assoc]
+
+theorem sumRow_cons (x : Rat) (l : List Rat) : sumRow (x :: l) = x + sumRow l := by
+  unfold sumRow
+  rw [List.foldl_cons, foldl_add_start, Rat.zero_add]
+
+theorem sumRow_nil : sumRow [] = 0 := rfl
+
+theorem sumRow_append (a b : List Rat) : sumRow (a ++ b) = sumRow a + sumRow b := by
+  induction a with
+  | nil => simp [sumRow_nil, Rat.zero_add]
+  | cons x xs ih => simp [sumRow_cons, ih, Rat.add_assoc]
+
+/-- pointwise sum of two equally long vectors -/
+def addVec : List Rat → List Rat → List Rat
+  | a :: as, b :: bs => (a + b) :: addVec as bs
+  | _, _ => []
+
+theorem sumRow_addVec (a b : List Rat) (h : a.length = b.length) :
+    sumRow (addVec a b) = sumRow a + sumRow b := by
+  induction a generalizing b with
+  | nil => cases b <;> simp_all [addVec, sumRow_nil, Rat.add_zero]
+  | cons x xs ih =>
+    cases b with
+    | nil => simp at h
+    | cons y ys =>
+      simp only [addVec, sumRow_cons]
+      rw [ih ys (by simpa using h)]
+      rw [Rat.add_assoc, Rat.add_assoc]
+      congr 1
+      rw [← Rat.add_assoc, ← Rat.add_assoc, Rat.add_comm y]
+
+theorem colAt_cons (r : List Rat) (rows : List (List Rat)) (j : Nat) (h : j < r.length) :
+    colAt (r :: rows) j = r[j] :: colAt rows j := by
+  simp [colAt, List.filterMap_cons, List.getElem?_eq_getElem h]
+
+/-- column totals of a rectangular grid, as a vector -/
+theorem colSums_cons (r : List Rat) (rows : List (List Rat)) (m : Nat) (hr : r.length = m) :
+    (List.range m).map (fun j => sumRow (colAt (r :: rows) j)) =
+      addVec r ((List.range m).map (fun j => sumRow (colAt rows j))) := by
+  subst hr
+  have key : ∀ (k : Nat) (r' : List Rat) (off : Nat), r'.length = k → (∀ i, i < k → r[off + i]? = r'[i]?) →
+      (List.range' off k).map (fun j => sumRow (colAt (r :: rows) j)) =
+        addVec r' ((List.range' off k).map (fun j => sumRow (colAt rows j))) := by
+    intro k
+    induction k with
+    | zero => intro r' off h _; cases r' <;> simp_all [addVec]
+    | succ n ih =>
+      intro r' off h hget
+      cases r' with
+      | nil => simp at h
+      | cons x xs =>
+        rw [List.range'_succ, List.map_cons, List.map_cons]
+        simp only [addVec]
+        have h0 := hget 0 (by omega)
+        simp only [Nat.add_zero, List.getElem?_cons_zero] at h0
+        have hlt : off < r.length := by
+          rcases List.getElem?_eq_some_iff.mp h0 with ⟨hh, _⟩; exact hh
+        have hx : r[off] = x := by
+          rcases List.getElem?_eq_some_iff.mp h0 with ⟨_, he⟩; exact he
+        rw [colAt_cons r rows off hlt, sumRow_cons, hx]
+        congr 1
+        apply ih xs (off + 1) (by simpa using h)
+        intro i hi
+        have := hget (i + 1) (by omega)
+        simpa [Nat.add_assoc, Nat.add_comm 1 i] using this
+  have := key r.length r 0 rfl (by intro i _; simp)
+  simpa [List.range_eq_range'] using this
+
+theorem colAt_nil (j : Nat) : colAt ([] : List (List Rat)) j = [] := rfl
+
+theorem sumRow_zeros (m : Nat) : sumRow ((List.range m).map (fun _ => (0 : Rat))) = 0 := by
+  induction m with
+  | zero => rfl
+  | succ n ih =>
+    rw [List.range_succ, List.map_append, sumRow_append, ih]
+    simp [sumRow_cons, sumRow_nil, Rat.add_zero]
+
+/-- exchanging the order of summation on a rectangular grid -/
+theorem sum_cols_eq_sum_rows (rows : List (List Rat)) (m : Nat) (h : ∀ r ∈ rows, r.length = m) :
+    sumRow ((List.range m).map (fun j => sumRow (colAt rows j))) = sumRow (rows.map sumRow) := by
+  induction rows with
+  | nil =>
+    simp only [colAt_nil, sumRow_nil, List.map_nil]
+    exact sumRow_zeros m
+  | cons r rest ih =>
+    rw [colSums_cons r rest m (h r (List.mem_cons_self ..)), sumRow_addVec, List.map_cons, sumRow_cons,
+      ih (fun r' hr' => h r' (List.mem_cons_of_mem _ hr'))]
+    simp [h r (List.mem_cons_self ..)]
+
+end Biom.C05
